@@ -208,7 +208,11 @@ def run(check):
       continue
     # the parse is attempted on every path to the sink, except under a configuration switch
     def config_edge(a, lab, b):
-      return isinstance(lab, tuple) and 'settings.' in unparse(lab[1]) and mvar not in {x.id for x in ast.walk(lab[1]) if isinstance(x, ast.Name)}
+      # the side of a configuration switch on which normalisation is switched off altogether
+      if not (isinstance(lab, tuple) and 'settings.' in unparse(lab[1]) and
+              mvar not in {x.id for x in ast.walk(lab[1]) if isinstance(x, ast.Name)}):
+        return False
+      return not any(pn in g.reach([b], normal_only=True) for pn in parses)
     for s in sinks:
       if s in g.reach([g.entry], removed_nodes=set(parses), removed_edge=config_edge, normal_only=True):
         p = g.path([g.entry], s, removed_nodes=set(parses), removed_edge=config_edge, normal_only=True)
@@ -219,7 +223,8 @@ def run(check):
                     % (sinkname, short(tests[-1].ast) if tests else '?'), path=g.describe_path(p))
       else:
         r_f.ok('%s: parse attempted on every path to %s()' % (q, sinkname), fn.loc(s.ast))
-    # try / catch-all / no re-raise, and the handler path keeps the original name
+    # try / catch-all / no re-raise, and the handler path keeps the original name (decided per path: sa/paths.py)
+    from ..paths import PathExec
     for pnode in parses:
       hs = [y for y, lab in pnode.succ if lab == 'exc']
       if not hs or any(h is g.raise_exit for h in hs):
@@ -227,30 +232,26 @@ def run(check):
                     'handler: a name that violates the tag rules is dropped instead of being passed on as received')
         continue
       okh = True
-      for h in hs:
-        body_nodes = g.reach([h], normal_only=True)
-        if any(n.kind == 'stmt' and isinstance(n.ast, ast.Raise) for n in body_nodes if n is not h and
-               any(x is n.ast for s in h.ast.body for x in ast.walk(s))):
-          okh = False
-        if any(n.kind == 'stmt' and isinstance(n.ast, ast.Return) and any(x is n.ast for s in h.ast.body for x in ast.walk(s))
-               for n in body_nodes):
-          okh = False
-        for s in sinks:
-          if s not in body_nodes:
-            okh = False
-          else:
-            call = [c for c in g.calls(s) if isinstance(c.func, ast.Attribute) and c.func.attr == sinkname][0]
-            a0 = call.args[0] if call.args else None
-            if not (isinstance(a0, ast.Name) and a0.id == mvar):
+      px = PathExec(cx, fn, unroll=0)
+      RAW = ('param', mvar)
+      seen_fail = seen_ok = False
+      for hit in px.run(set(sinks) | {g.exit, g.raise_exit}):
+        failed = any(pol == 'X' and n in hs and a is pnode.ast for pol, t, a, n in hit.conds)
+        parsed = pnode in hit.trail and not failed
+        if hit.node in sinks:
+          call = [c for c in g.calls(hit.node) if isinstance(c.func, ast.Attribute) and c.func.attr == sinkname][0]
+          a0 = hit.term(call.args[0], px) if call.args else None
+          if failed:
+            seen_fail = True
+            if a0 != RAW:
               okh = False
-        # on the handler path the name must still be the parameter: no rebinding of mvar inside the handler
-        if any(isinstance(x, ast.Assign) and any(isinstance(t, ast.Name) and t.id == mvar for t in x.targets)
-               for s in h.ast.body for x in ast.walk(s)):
-          okh = False
-      # the only rebinding of the name is the successful parse result
-      defs = [n for n in g.nodes if n.kind == 'stmt' and isinstance(n.ast, ast.Assign) and any(
-        isinstance(t, ast.Name) and t.id == mvar for t in n.ast.targets)]
-      if any(d is not pnode for d in defs):
+          elif parsed:
+            seen_ok = True
+        elif failed and not any(n in sinks for n in hit.trail):
+          # the function ends (return / raise) after a failed parse without having passed the name on
+          if hit.node is g.exit or any(n.kind == 'stmt' and isinstance(n.ast, ast.Raise) for n in hit.trail):
+            okh = False
+      if not seen_fail or px.truncated:
         okh = False
       if okh:
         r_f.ok('%s: parse failure -> original name reaches %s()' % (q, sinkname), fn.loc(pnode.ast))
